@@ -215,7 +215,7 @@ class Runner:
         self.pre_damaged = set(self.damaged)
         tracer = None
         # several calls = several traces; a stream handed over mid-way takes one of two paths depending on its tail's digest
-        single_calls = op['op'] == 'addPacked' and ((op.get('via') == 'single' and len(op['cs']) > 1) or op.get('via') == 'midstream')
+        single_calls = op['op'] == 'addPacked' and ((op.get('via') == 'single' and len(op['cs']) > 1) or op.get('via') in ('midstream', 'nested'))
         # (stray files in duplicates/ are not part of the Level-C model: with them present, clean and delete are not traced)
         if (getattr(self, 'check_trace', False) and not single_calls and op['op'] in ('addLoose', 'addPacked', 'packAll', 'delete', 'repackOne', 'clean')
                 and not (pre.duplicates and op['op'] in ('delete', 'clean'))):
@@ -306,6 +306,29 @@ class Runner:
                     keys = c.add_streamed_objects_to_pack([io.BytesIO(d) for d in datas], **kw)
                 elif via == 'short':
                     keys = c.add_streamed_objects_to_pack([ShortReader(d, op.get('short', 7)) for d in datas], **kw)
+                elif via == 'nested':
+                    # while this writer holds the pack, a second handle tries to write to packs too (from inside the first read of
+                    # the first stream): it must be refused, or at least leave the index and the packs consistent
+                    outer = self
+
+                    class Trigger(io.BytesIO):
+                        fired = False
+
+                        def read(self, *a):  # pylint: disable=arguments-differ
+                            if not Trigger.fired:
+                                Trigger.fired = True
+                                c2 = rc.dos.Container(rc.folder)
+                                try:
+                                    c2.add_objects_to_pack([pool.contents[x] for x in op['inner']], compress=op['compress'])
+                                    outer.res.bump('nested.accepted')
+                                    rc.expected.update(op['inner'])
+                                except Exception as exc:  # pylint: disable=broad-except
+                                    outer.res.bump('nested.refused.' + type(exc).__name__)
+                                finally:
+                                    c2.close()
+                            return super().read(*a)
+
+                    keys = c.add_streamed_objects_to_pack([Trigger(datas[0])] + [io.BytesIO(d) for d in datas[1:]], **kw)
                 elif via == 'midstream':
                     # streams handed over at a position > 0; with no_holes + read-twice the library rewinds them
                     streams = []
